@@ -2,7 +2,6 @@
    Statements only.  They are about the MODEL's own step: [view_of_model cfg w e cmd um] is what
    running command [cmd] in environment [e] (pretend / fault plan / Go map order oracle) does to
    world [w].  Hypotheses are decidable predicates on the world BEFORE the step:
-     kernel_wf w          the kernel mount table is well-formed (LC.wf)
      names_distinct c w   the names directly under the layers directory are pairwise distinct
      paths_distinct w     the file tree has one entry per path (LC.wf)
      cfg_ok c             layers / exports directories are clean absolute paths, neither inside the
@@ -14,23 +13,28 @@
    Proofs/C02ExP.v shows a two-layer world satisfying all of them, and worlds violating each. *)
 From LC Require Import Lib.Bytes Lib.Lex Lib.Fields Lib.PathM Model.Config Gen.Consts
   Model.MountInfo Model.FsTree Model.Kernel Model.Layers Cases.Verdict Cases.LC Cases.C02
-  Proofs.RoundtripP Proofs.C02cP Proofs.C02dP Proofs.C02eP Proofs.C02P Proofs.C02ExP.
+  Proofs.KernelP Proofs.RoundtripP Proofs.C02cP Proofs.C02dP Proofs.C02eP Proofs.C02P Proofs.C02ExP.
 Import LC LCS.
 
 (* (a) on a forest no command diverges or panics: the fuelled walks (normalizeOrder, checkInheritance,
    getAncestorsAndSelf) never run out, the "cannot happen" branches are not reached, ProbeMounts
-   never panics on the table the model itself maintains *)
+   cannot panic on ANY table the kernel model renders (C02_probe_total) *)
 Theorem C02_no_diverge : forall cfg w e cmd um,
-  C02.forest_ok cfg (wo_fs w) = true -> kernel_wf w = true -> names_distinct cfg w = true ->
+  C02.forest_ok cfg (wo_fs w) = true -> names_distinct cfg w = true ->
   match v_res (view_of_model cfg w e cmd um) with RDiverge | RPanic => false | _ => true end = true.
 Proof. exact no_diverge. Qed.
 Print Assumptions C02_no_diverge.
+
+(* every rendered mountinfo line has at least three fields after its first "-": the parser's panic
+   branches are unreachable, for well-formed and ill-formed tables alike *)
+Theorem C02_probe_total : forall k, exists ms ds, probe_of k = POk ms ds.
+Proof. exact KernelP.probe_of_total. Qed.
+Print Assumptions C02_probe_total.
 
 (* (b) requests that would break the forest (duplicate / illegal / empty name, missing parent, rebase
    onto itself or a descendant, remove of a layer with children) are refused and nothing changes --
    in every environment, faults and pretend included *)
 Theorem C02_breaking_refused : forall cfg w e cmd um,
-  kernel_wf w = true ->
   let v := view_of_model cfg w e cmd um in
   (negb (C02.forest_ok cfg (wo_fs w) && base_set_up cfg (wo_fs w) && C02.breaking cfg (wo_fs w) (v_cmd v))
    || (rclass_beq (v_res v) RFail && unchanged w v)) = true.
@@ -151,7 +155,7 @@ Print Assumptions C02_rename_exact_partial.
 
 (* all four conjuncts of C02.step_spec together *)
 Theorem C02_step_spec_partial : forall cfg w e cmd um,
-  cfg_ok cfg = true -> fs_ok cfg (wo_fs w) = true -> kernel_wf w = true -> names_distinct cfg w = true ->
+  cfg_ok cfg = true -> fs_ok cfg (wo_fs w) = true -> names_distinct cfg w = true ->
   paths_distinct w = true -> no_stale_tmp cfg (wo_fs w) cmd = true ->
   C02.forest_ok cfg (wo_fs w) = true ->
   in_scope e cmd (v_res (view_of_model cfg w e cmd um)) = true ->
